@@ -482,8 +482,13 @@ class Check:
                 if len(seen) <= 8:
                     print("GROWTH-DIVERGENCE spec=%s replay=%s  (%s; outside the statement of %s, not counted as a violation)" % (
                         d["spec"], path, d["what"], self.pid))
-        os.makedirs(os.path.join(VERIF, "evidence"), exist_ok=True)
-        with open(os.path.join(VERIF, "evidence", self.pid + ".json"), "w") as f:
+        # evidence/ describes runs against /repo itself; a run against a scratch worktree (VERIF_REPO=..., used to
+        # try seeded changes) must not overwrite it
+        repo = os.path.realpath(os.environ.get("VERIF_REPO", "/repo"))
+        evdir = os.path.join(VERIF, "evidence") if repo == "/repo" else os.path.join(
+            tempfile.gettempdir(), "verif-evidence-" + os.path.basename(repo))
+        os.makedirs(evdir, exist_ok=True)
+        with open(os.path.join(evdir, self.pid + ".json"), "w") as f:
             json.dump(ev, f, indent=1, default=str)
             f.write("\n")
         for k in self.known:
